@@ -115,9 +115,9 @@ int main(int argc, char **argv) {
         }
         int status = 0; waitpid(pid, &status, 0);
         if (WIFSIGNALED(status)) {
-            if (verif_is_timeout(WTERMSIG(status))) printf("x hang no return within %d s\n", case_timeout);
-            else printf("x crash:%d terminated by signal\n", WTERMSIG(status));
-        } else if (WIFEXITED(status) && WEXITSTATUS(status) != 0) printf("x crash:exit%d abnormal exit\n", WEXITSTATUS(status));
+            if (verif_is_timeout(WTERMSIG(status))) printf("\nx hang no return within %d s\n", case_timeout);
+            else printf("\nx crash:%d terminated by signal\n", WTERMSIG(status));
+        } else if (WIFEXITED(status) && WEXITSTATUS(status) != 0) printf("\nx crash:exit%d abnormal exit\n", WEXITSTATUS(status));
         fflush(stdout);
     }
     return 0;
